@@ -21,8 +21,8 @@ Definition cfin_eqb (a b : cfin) : bool :=
 
 Definition obs_eqb (a b : obs) : bool :=
   match a, b with
-  | Obs h f al hg lk, Obs h' f' al' hg' lk' =>
-      list_eqb hev_eqb h h' && list_eqb cfin_eqb f f' && Z.eqb al al'
+  | Obs h f al bl hg lk, Obs h' f' al' bl' hg' lk' =>
+      list_eqb hev_eqb h h' && list_eqb cfin_eqb f f' && Z.eqb al al' && Z.eqb bl bl'
       && Bool.eqb hg hg' && Bool.eqb lk lk'
   end.
 
@@ -70,7 +70,7 @@ Definition flushed (c : Z) (ops : list op) : bool :=
 Fixpoint end_cause_after_connect (c : Z) (connected : bool) (ops : list op) : bool :=
   match ops with
   | [] => false
-  | OConnect c' :: r => end_cause_after_connect c (connected || Z.eqb c c') r
+  | OConnect c' :: r | ODial c' :: r => end_cause_after_connect c (connected || Z.eqb c c') r
   | o :: r =>
       (connected &&
        match o with
@@ -106,9 +106,13 @@ Definition ids_reused (ops : list op) (hl : list hev) : bool :=
 Definition monitor (cs : case) : bool :=
   let ops := expand (fst cs) in
   match snd cs with
-  | Obs hl fins alive hang leak =>
+  | Obs hl fins alive blocked hang leak =>
       let conns := order_of ops [] in
       negb hang && negb leak
+      (* nobody stays parked in a push once every connection has ended *)
+      && (negb (forallb (fun f => match f with CFin _ ncb _ _ _ _ => Z.eqb ncb 1 end) fins)
+          || Z.eqb blocked 0)
+      && Z.leb 0 blocked
       && forallb (known_conn conns) hl
       && list_eqb Z.eqb (map (fun f => match f with CFin c _ _ _ _ _ => c end) fins) conns
       && forallb (fun f => match f with CFin _ ncb nclose _ _ e =>
